@@ -21,6 +21,21 @@ TABLE = {
  "C10-1": {"breaks": "C10", "file": "src/relation/clpfd/distinctfd.rs",
            "what": "DistinctFd2Constraint::run updates the shared constraint object in place (skips Rc::make_mut) on its 'last pass'",
            "needs": "distinctfd posted before a disjunction, one branch resolving all remaining variables in one unification, a later sibling relying on the same constraint object to reject a duplicate"},
+ "C01-1": {"breaks": "C01", "file": "src/state/substitution.rs",
+           "what": "SMap::occurs_check compares a syntactic variable tail of a cons cell directly with x instead of walking it",
+           "needs": "unify an unbound x with an improper list whose tail variable t is different from x but already bound to a term containing x (t == [x], x == [1 | t])"},
+ "C03-1": {"breaks": "C03", "file": "src/state/substitution.rs",
+           "what": "SMap::is_closed uses || instead of && for list cells, so every proper list counts as closed",
+           "needs": "a pending disequality whose key is reachable from a query variable and whose right-hand side is a list containing a fresh variable that is not part of the answer"},
+ "C09-1": {"breaks": "C09", "file": "src/state/mod.rs",
+           "what": "State::run_constraints returns early when a snapshotted constraint is no longer in the store",
+           "needs": ">= 3 stored disequalities, one unification that makes constraint A subsume stored constraint B (B leaves the store mid-pass) and violates a third constraint C, and the hash order A, B, C (1 of 6)"},
+ "C12-1": {"breaks": "C12", "file": "src/operator/everyg.rs",
+           "what": "Everyg::solve dedups adjacent equal elements of the collection before building the conjunction",
+           "needs": "adjacent equal elements in the collection and a body with more than one answer (or non-ground elements)"},
+ "C22-1": {"breaks": "C22", "file": "src/state/constraint/store.rs",
+           "what": "push_and_normalize no longer reports a redundant new constraint as dropped (no take_constraint for it)",
+           "needs": "the weaker (subsumed) disequality arrives while the stronger one is stored, directly or after a later unification re-normalises it"},
 }
 for name, t in TABLE.items():
     d = os.path.join(ROOT, "seeded", name)
